@@ -42,6 +42,59 @@ PROPS = {
             "no-wrap hypotheses of the N-valued statements: holdings + fee of spending them all < 2^64, sum of ppk + 999 < 2^64, amount + fees < 2^64 (the uint64-level statements need none)",
         ],
     },
+    "C20": {
+        "claimed": True,
+        "title": "HTTP/JSON surface is a faithful, spec-shaped transport of the mint's decisions",
+        "lean": ["Gonuts.Props.C20", "Gonuts.Tie.Wire"],
+        "streams": ["wire"],
+        "thorough_shards": {"wire": 3},
+        "level": "proof",
+        "technique": "Lean 4 theorems over Model.Wire — mint/server.go written as a pure function handleX : WSess -> Request -> WSess x Response x Info "
+                     "(mux routing incl. 301/404/405/OPTIONS, {method} check, decodeJsonReqBody classes, the NUT-19 cache as an association list with the "
+                     "code's Get/Set/DeleteExpired semantics, per-handler error mapping, writeErr, one JSON tree per response type) composed with "
+                     "Model.Mint.applyOp; tied to /repo statically (Tie.Wire: route table, per-handler `cashuErr.Code ==` tests and writeErr arguments, decode "
+                     "switch, go/printer text of Cache.Set/Get/DeleteExpired, writeErr, setupHeaders, Start, PublicKeys.MarshalJSON, cache key/TTL argument "
+                     "expressions, JSON tags of every request/response struct, enum switch tables, error table, NUT-19 advertisement; by rfl/decide) and "
+                     "differentially (stream wire: hand-built JSON text through MintServer's http.Handler in-process, generic parsing, request-by-request "
+                     "comparison of status, ordered body tree, storage trace, Lightning calls and cache size with the Lean driver; the real mint.Cache object "
+                     "against the model's cache functions incl. the 10000/10001 boundary) plus model-free monitors",
+        "design_ref": "DESIGN.md §4.1 (last paragraph), §5 C20",
+        "text": "PROVED for all sessions, requests, cache contents, clock values and strings: enum_roundtrip (nut04/05/07 String/StringToState tables of the source "
+                "round-trip and yield the NUT strings; exception stated: a mint quote can show PENDING, which NUT-04 does not list); keys_sorted (key map ascending, "
+                "strictly for distinct amounts, independent of Go's map iteration order); ok_iff_200 / body_of_outcome / ok_tree_shape / element_shapes (a request that "
+                "reaches a handler and is not a cache hit is answered 200 iff applyOp succeeds, 400 iff it is refused; the body is the rendering of the handler's "
+                "response struct with exactly the NUT field names, or of the error passed to writeErr); refused_iff_400 ({detail, code} with the mapped code whenever "
+                "that code is not 0); code_of_cause (every error variable that expresses a cause of the NUT error table carries the table's code; the handlers pass "
+                "non-internal errors through unchanged: mapErr_passthrough); internal_generic (codes 1/2 are replaced by ONE constant body independent of the internal "
+                "message, per handler; meltTokens has its own constant for Lightning errors; swapRequest/meltQuoteRequest test only the DB code — latent, stated); "
+                "no_collision (for all strings: keys of cached POSTs contain '/', `{id}` segments and ACTIVE_KEYSET do not); cache_hit_iff (served from the cache iff the "
+                "map holds method++url++body; then the stored bytes, 200, mint session untouched, an expired entry served once more and dropped); cache_provenance + "
+                "cache_exact (over every history from a fresh server: a NUT-19 entry exists only because an earlier request with the identical key was EXECUTED, answered "
+                "200 on /v1/swap or /v1/mint/bolt11, and holds that response's bytes; hence hit iff such a request exists and its entry is retained); key_eq_iff (identical "
+                "key = identical (method, URL, body) when the URLs have equal length, e.g. no query string); replay_identical (within TTL, over ANY intermediate history "
+                "without restart: identical bytes, nothing executed); stored_entry (TTL 300 s, body < 2 MB, map size <= 10000 at that moment; the map can hold limit+1); "
+                "beyond_retention_executes (key absent => the operation runs again on the current session: inputs spent / quote issued). "
+                "FALSE on the code as it is, each with a decide-checked witness, the exact partial theorem, and a reproduction against the real handler on every run: "
+                "refused_shape_full (a non-cashu error — MintTokens' failing 'restore previous state' write — is rendered {}), internal_generic_full (a failing quote "
+                "lookup is answered 'quote does not exist' 20009), code_of_cause_full (the same secret with another witness, or with a dleq object, is refused by the "
+                "storage key: 10000 instead of 11007), cache_exact_full (the key is a concatenation without separators: POST /v1/swap?x{A} with body `null` is served "
+                "the response of POST /v1/swap?x with body `{A}null`).",
+        "note": "Not modelled: /v1/ws (websocket upgrade), HTTP headers other than the request's Content-Type, percent-decoding of paths (the request carries the "
+                "decoded segments and URL.String() side by side; the harness takes both from net/http), the detail TEXT of generated messages (classes: bad-json, "
+                "invalid-type, bad-C-hex, …; literal for every constant of the source), concurrency (Cache.Get deletes under a read lock). The NUT error table in "
+                "Spec/NutWire.lean was written from the NUT documents offline (error_codes.md as of NUT-20); codes the mint uses outside it are listed in "
+                "codes_outside_table (11003, 10004; 20009 has another meaning in the table). The 30 s cleanup loop of MintServer.Start is modelled (tick) and its "
+                "DeleteExpired half is exercised on the real Cache object; its ACTIVE_KEYSET invalidation runs only inside Start (a listening server) and is tied by source text only.",
+        "assumptions": COMMON_ASSUME + [
+            "a request is given as (method, decoded path segments, URL.String(), Content-Type, body bytes, outcome class of encoding/json on the body, symbolic content of a "
+            "decodable body); net/http, net/url, gorilla/mux's regexp matching and encoding/json's scanner are not re-proved: the harness takes segments and URL from net/http "
+            "and classifies bodies with encoding/json itself plus its own schema walker",
+            "ReqWF: no segment of strings.Split(path, \"/\") contains '/', and URL.String() of a routed request contains '/' (monitored on every request)",
+            "time is an integer number of nanoseconds that does not run backwards (timeForward) in the retention theorems; time.Now().After is strict",
+            "symbolic values as in Model.Mint (ids, invoices, points, times are identities); the byte-identity claims are about the rendered symbolic text; real byte identity "
+            "of replays is checked by the stream",
+        ],
+    },
     "C10": {
         "claimed": True,
         "title": "Blind signatures and DLEQ proofs are algebraically correct and tamper-evident",
@@ -221,7 +274,8 @@ mint_prop("C05", "Melt inputs follow the Lightning outcome: spent iff paid, rele
     "PROVED for the model, every melt that passed validation, every pay answer a0, every status answer a1 and every LIST of later poll answers (no length bound): the final quote state is the closed table meltOutcome a0 a1 / pollOutcome a (melt_table, poll_table: PAID iff a definitive success, UNPAID iff a definitive failure or not-found on the in-melt check, PENDING on every ambiguous answer); the inputs are SPENT with the preimage (paid), still LOCKED (pending) or RELEASED (unpaid), nothing else (melt_follows_outcome, tail_inputs, melt_internal); a poll adopts succ/failed in the same call and changes nothing otherwise (poll_follows_outcome, poll_inputs); the verdict after any list of polls is decided by the first definitive answer (resolve_first_definitive, resolve_all_ambiguous, resolve_final).")
 mint_prop("C06", "Rejected or malformed requests change nothing and never crash a handler", ["Gonuts.Props.C06"],
     "PROVED for the model, every request content: a refused swap leaves tables and Lightning state untouched (swap_reject_noop); a refused melt likewise, except the failed backend lookup of an internal settlement after which spent is unchanged and no input is locked (melt_reject_noop, F15); a refused MintTokens leaves the tables exactly as its leading quote-state check left them — which changes at most that quote UNPAID->PAID when the invoice is settled (mint_reject_noop with quote ids unique in every reachable state: mintQ_nodup_db; quoteState_only_unpaid_to_paid; F4); refused mint-/melt-quote requests and restores write nothing.",
-    "No-panic is NOT a theorem: the model has no panic outcome after F3; panics of the Go are caught by the recover()-based monitors of mint-seq / mint-mon (and wire-malformed when registered).")
+    "No-panic is NOT a theorem: the model has no panic outcome after F3; panics of the Go are caught by the recover()-based monitors of mint-seq / mint-mon and of stream wire-malformed (about 5,300 structurally and byte-level mutated HTTP requests per run over 5 mint states: no panic, no state change on refusal, predicted decode class and detail text).",
+    streams=("mint-seq", "mint-mon", "wire-malformed"))
 mint_prop("C07", "Mint crash consistency: a crash at any point never inflates or strands value", ["Gonuts.Props.C07", "Gonuts.Props.C01"],
     "PROVED for the model, for EVERY event sequence (any operation, any interruption point, any number of kills, injected storage errors and requests in flight, any inputs): durability — a SPENT row, a stored signature, a keyset's index and fee, a quote's terms are never lost (durable_spent, durable_signature, durable_keyset, durable_mint_quote, durable_melt_quote); a kill changes no table and the restarted cache is a function of storage (kill_keeps_tables, restart_cache_from_storage); the unique keys of the spent/pending/signature tables hold at every point (unique_keys_always); a spent secret is refused by every later request (spent_refused_after_restart). FALSE of the code, with kernel-checked witnesses: atomicity (swap_atomic_full_false: killed between SaveProofs and SaveBlindSignatures the inputs are SPENT and nothing is restorable, swap_stranded_for_good; mint_atomic_full_false), safety (melt_safety_full_false: killed between RemovePendingProofs and SaveProofs the invoice is paid and the inputs spendable), start-up (rotate_restart_full_false: no active keyset, LoadMint panics). The complete interruption tables of the canonical swap/mint/melt/rotation (swap_table, mint_table, melt_table, rotate_table) are decide-checked TESTS of the model, compared point by point with the real mint by stream mint-crash.",
     "Stream mint-crash: every listed operation x every interruption point k x {kill+restart, storage error at call k then restart} against the real mint on real SQLite (goroutine parked for ever at the Gate = process kill; LoadMint on the same directory), followed by state check, poll, retry, restore and re-spend; the model executes the same prefix, kill and follow-up; verdicts (unsafe / lost / stranded / ok) are computed model-free from storage and the backend's ledger. 52 interruption points violate the property on the unchanged tree (known findings C07/crash/*, C07/fault/*, one signature per (mode, operation, call, verdict)); any other point, or another verdict at a listed point, is a VIOLATION. The model's kill drops continuations between calls; torn writes inside one SQLite transaction and fsync behaviour are NOT modelled (SQLite's own atomicity is trusted).",
